@@ -26,12 +26,13 @@ PROPERTY = {
     "kani": [Harness(f"c01_{t}", f"C01.native.{t}", "PROVED-C",
                      f"{t}: all values x all 20 native column types: Ok iff documented pair; bytes == be32(width) ++ big-endian value; mismatch writes nothing; type_check matrix; decode(encode(v)) == v bit for bit; wrong width / null rejected",
                      crate="scylla-cql-core", functions=[f"scylla-cql-core/src/serialize/value.rs:<{t} as SerializeValue>::serialize", f"scylla-cql-core/src/deserialize/value.rs:<{t} as DeserializeValue>::{{type_check,deserialize}}"])
-             for t in ("i8", "i16", "i32", "i64", "bool", "f32", "f64", "counter", "date", "time", "timestamp")] + [
+             for t in ("i8", "i16", "i32", "i64", "bool", "f32", "f64", "counter", "date", "time", "timestamp", "uuid", "timeuuid")] + [
         Harness("c01_unsigned_vint_roundtrip", "C01.vint.unsigned_roundtrip", "PROVED-C", "all u64: shortest encoding, first byte announces the extra bytes, decode(encode(v)) == v, consumes exactly the encoding", crate="scylla-cql-core", functions=["scylla-cql-core/src/frame/types.rs:unsigned_vint_encode", "scylla-cql-core/src/frame/types.rs:unsigned_vint_decode"]),
         Harness("c01_vint_zigzag_roundtrip", "C01.vint.zigzag_roundtrip", "PROVED-C", "all i64: zig-zag mapping per definition; vint_decode(vint_encode(v)) == v", crate="scylla-cql-core", functions=["scylla-cql-core/src/frame/types.rs:zig_zag_encode", "scylla-cql-core/src/frame/types.rs:zig_zag_decode", "scylla-cql-core/src/frame/types.rs:vint_encode", "scylla-cql-core/src/frame/types.rs:vint_decode"]),
         Harness("c01_unsigned_vint_decode_any_bytes", "C01.vint.decode_any_bytes", "PROVED-C", "any <= 9 bytes: Ok iff the announced bytes are present; never past the end", crate="scylla-cql-core", functions=["scylla-cql-core/src/frame/types.rs:unsigned_vint_decode"]),
-        Harness("c01_option_and_unset", "C01.wrappers.option_unset", "PROVED-C", "Option/MaybeUnset/Unset: null = -1, not set = -2, Some(v) = v's cell; read back; mismatch writes nothing", crate="scylla-cql-core",
-                functions=["scylla-cql-core/src/serialize/value.rs:Option<T>/MaybeUnset<T>/Unset serialize"]),
+    ] + [Harness(f"c01_{n}", f"C01.wrappers.{n}", "PROVED-C", d, crate="scylla-cql-core", functions=["scylla-cql-core/src/serialize/value.rs:Option<T>/MaybeUnset<T>/Unset serialize"])
+         for n, d in (("option_none", "None -> null cell be32(-1)"), ("unset", "Unset -> be32(-2)"), ("maybe_unset", "MaybeUnset: Unset -> be32(-2), Set(v) -> v's cell"),
+                      ("option_some", "Some(v) -> v's cell; null reads back as None, the cell as Some(v)"), ("option_mismatch_writes_nothing", "a mismatched Some(v) writes nothing"))] + [
         Harness("c01_canary_i32_little_endian", "C01.kani.canary", "PROVED-C", "a false claim must be refuted", crate="scylla-cql-core", carries=False, canary=True),
     ],
     "trusted_base": ["Verus/Z3 soundness", "i32::to_be_bytes (big-endian)", "Vec slicing + copy_from_slice"],
